@@ -555,6 +555,9 @@ pub struct Wrap<D, T> {
     _t: PhantomData<fn() -> T>,
     dirty: Option<fn(&D, &mut VRng, u64) -> Val>,
     repr: Option<fn(&D) -> String>,
+    /// law checks only: `fill` reports n - x instead of x (u64 outputs near 2^62 do not survive the
+    /// conversion to f64; the complement is small and exact). See `binomial_uses_complement`.
+    complement: Option<u64>,
 }
 
 impl<D, T> Sampler for Wrap<D, T>
@@ -567,6 +570,12 @@ where
         self.d.sample(rng).val()
     }
     fn fill(&self, rng: &mut BaseRng, out: &mut [f64]) {
+        if let Some(n) = self.complement {
+            for o in out.iter_mut() {
+                *o = n.wrapping_sub(self.d.sample(rng).val().as_u64().unwrap_or(0)) as f64;
+            }
+            return;
+        }
         for o in out.iter_mut() {
             *o = self.d.sample(rng).f();
         }
@@ -589,6 +598,7 @@ where
             _t: PhantomData,
             dirty: self.dirty,
             repr: self.repr,
+            complement: self.complement,
         })
     }
     fn as_any(&self) -> &dyn Any {
@@ -602,15 +612,15 @@ where
     }
     fn serde_rt(&self) -> Option<(Result<Box<dyn Sampler>, String>, Result<Box<dyn Sampler>, String>, String)> {
         let rt = self.d.serde_rt()?;
-        let (dirty, repr) = (self.dirty, self.repr);
+        let (dirty, repr, complement) = (self.dirty, self.repr, self.complement);
         let bx = |r: Result<D, String>| -> Result<Box<dyn Sampler>, String> {
-            r.map(|d| Box::new(Wrap::<D, T> { d, _t: PhantomData, dirty, repr }) as Box<dyn Sampler>)
+            r.map(|d| Box::new(Wrap::<D, T> { d, _t: PhantomData, dirty, repr, complement }) as Box<dyn Sampler>)
         };
         Some((bx(rt.via_value), bx(rt.via_text), rt.text))
     }
     fn serde_from_text(&self, s: &str) -> Option<Result<Box<dyn Sampler>, String>> {
-        let (dirty, repr) = (self.dirty, self.repr);
-        D::serde_from_text(s).map(|r| r.map(|d| Box::new(Wrap::<D, T> { d, _t: PhantomData, dirty, repr }) as Box<dyn Sampler>))
+        let (dirty, repr, complement) = (self.dirty, self.repr, self.complement);
+        D::serde_from_text(s).map(|r| r.map(|d| Box::new(Wrap::<D, T> { d, _t: PhantomData, dirty, repr, complement }) as Box<dyn Sampler>))
     }
     fn clone_from_dyn(&mut self, other: &dyn Sampler) -> bool {
         match other.as_any().downcast_ref::<Wrap<D, T>>() {
@@ -634,7 +644,7 @@ where
     D: Distribution<T> + Subject,
     T: OutVal + 'static,
 {
-    Box::new(Wrap::<D, T> { d, _t: PhantomData, dirty: None, repr: None })
+    Box::new(Wrap::<D, T> { d, _t: PhantomData, dirty: None, repr: None, complement: None })
 }
 
 fn bx_alias<W: rand_distr::weighted::AliasableWeight + Debug + Send + 'static>(d: WeightedAliasIndex<W>) -> Box<dyn Sampler>
@@ -649,6 +659,7 @@ where
             Ok(w) => format!("weights() = {:?}", w),
             Err(_) => "weights() panicked".to_string(),
         }),
+        complement: None,
     })
 }
 
@@ -702,6 +713,13 @@ macro_rules! tree_int {
 }
 
 /// Build the distribution of a cell. `Err` carries the Debug text of the constructor error.
+/// Binomial(n, p) with n > 2^53 and p > 1/2: the outputs lie near n and are not representable as f64, so the
+/// law checks look at n - X, which is Binomial(n, 1 - p) (1 - p is exact for p >= 1/2) — `Sampler::fill`
+/// reports the complement and `refdist::reflaw` returns the complement's law. `sample_v` is unaffected.
+pub fn binomial_uses_complement(cell: &Cell) -> bool {
+    cell.fam == Fam::Binomial && cell.ip.first().map(|&n| n > (1u64 << 53)).unwrap_or(false) && cell.p.first().map(|&p| p > 0.5 && p <= 1.0).unwrap_or(false)
+}
+
 pub fn build(cell: &Cell) -> Result<Box<dyn Sampler>, String> {
     let p = &cell.p;
     let g = |i: usize| -> f64 { p.get(i).copied().unwrap_or(f64::NAN) };
@@ -740,7 +758,12 @@ pub fn build(cell: &Cell) -> Result<Box<dyn Sampler>, String> {
         Fam::PertMean => both!(cell, Pert, |F| Pert::<F>::new(g(0) as F, g(1) as F)
             .with_shape(g(3) as F)
             .with_mean(g(2) as F)),
-        Fam::Binomial => Binomial::new(cell.ip[0], g(0)).map(|d| bx::<_, u64>(d)).map_err(es),
+        Fam::Binomial => Binomial::new(cell.ip[0], g(0))
+            .map(|d| -> Box<dyn Sampler> {
+                let complement = if binomial_uses_complement(cell) { Some(cell.ip[0]) } else { None };
+                Box::new(Wrap::<_, u64> { d, _t: PhantomData, dirty: None, repr: None, complement })
+            })
+            .map_err(es),
         Fam::Poisson => both!(cell, Poisson, |F| Poisson::<F>::new(g(0) as F)),
         Fam::Geometric => Geometric::new(g(0)).map(|d| bx::<_, u64>(d)).map_err(es),
         Fam::StandardGeometric => Ok(bx::<_, u64>(StandardGeometric)),
@@ -769,11 +792,11 @@ pub fn build(cell: &Cell) -> Result<Box<dyn Sampler>, String> {
             Ft::F32 => {
                 let a: Vec<f32> = p.iter().map(|&x| x as f32).collect();
                 Dirichlet::<f32>::new(&a)
-                    .map(|d| Box::new(Wrap::<Dirichlet<f32>, Vec<f32>> { d, _t: PhantomData, dirty: Some(|d, r, j| Val::VF32(dirty_dirichlet::<f32>(d, r, j))), repr: None }) as Box<dyn Sampler>)
+                    .map(|d| Box::new(Wrap::<Dirichlet<f32>, Vec<f32>> { d, _t: PhantomData, dirty: Some(|d, r, j| Val::VF32(dirty_dirichlet::<f32>(d, r, j))), repr: None, complement: None }) as Box<dyn Sampler>)
                     .map_err(es)
             }
             Ft::F64 => Dirichlet::<f64>::new(p)
-                .map(|d| Box::new(Wrap::<Dirichlet<f64>, Vec<f64>> { d, _t: PhantomData, dirty: Some(|d, r, j| Val::VF64(dirty_dirichlet::<f64>(d, r, j))), repr: None }) as Box<dyn Sampler>)
+                .map(|d| Box::new(Wrap::<Dirichlet<f64>, Vec<f64>> { d, _t: PhantomData, dirty: Some(|d, r, j| Val::VF64(dirty_dirichlet::<f64>(d, r, j))), repr: None, complement: None }) as Box<dyn Sampler>)
                 .map_err(es),
         },
         Fam::AliasU8 => alias_int!(cell, u8),
